@@ -372,9 +372,41 @@ func stress(rng interface{ Intn(int) int }) {
 	inst := newInstance(p, d, nil)
 	users := 16
 	jars := make([]jar, users)
+	// every forwarded request carries the identity of the browser that sent it (the path names the browser)
+	identityBad := make(chan string, 16)
+	d.check = func(r *http.Request) {
+		var u int
+		if _, err := fmt.Sscanf(r.URL.Path, "/u%d", &u); err == nil {
+			if got, want := r.Header.Get("X-Forwarded-User"), fmt.Sprintf("user%d@example.com", u); got != want {
+				select {
+				case identityBad <- fmt.Sprintf("request of browser %d forwarded with X-Forwarded-User=%q", u, got):
+				default:
+				}
+			}
+		}
+	}
+	// the provider honours each refresh token for its own user, after a short pause (the grant is in flight for a while);
+	// the refresh tokens look like JWTs: they share their first characters
+	rtUser := map[string]int{}
+	p.onRefresh = func(form url.Values) tokenAnswer {
+		u, ok := rtUser[form.Get("refresh_token")]
+		if !ok {
+			return tokenAnswer{kind: "invalid_grant", desc: "unknown refresh token"}
+		}
+		time.Sleep(2 * time.Millisecond)
+		cl := stdClaims(time.Now(), time.Hour)
+		cl["email"] = fmt.Sprintf("user%d@example.com", u)
+		return tokenAnswer{kind: "ok", idToken: stdToken(p.keys[0], cl), refresh: form.Get("refresh_token")}
+	}
 	for u := 0; u < users; u++ {
 		jars[u] = jar{}
-		if u%4 != 3 {
+		switch {
+		case u%4 == 3: // anonymous
+		case u%4 == 1: // logged in with an ID token inside the grace period: the first request of the run refreshes
+			rt := fmt.Sprintf("eyJhbGciOiJSUzI1NiJ9.refresh-token-of-user-%d", u)
+			rtUser[rt] = u
+			loginWith(inst, p, jars[u], fmt.Sprintf("user%d@example.com", u), 20*time.Second, rt)
+		default:
 			simpleLoginAs(inst, p, jars[u], fmt.Sprintf("user%d@example.com", u))
 		}
 	}
@@ -421,6 +453,7 @@ func stress(rng interface{ Intn(int) int }) {
 				jars[u].addTo(req)
 				rec := httptest.NewRecorder()
 				inst.ServeHTTP(rec, req)
+				jars[u].apply(rec.Header()) // (each browser's jar is used by its own goroutine only)
 				progress.Add(1)
 				if u%4 != 3 && rec.Code != 200 {
 					select {
@@ -469,6 +502,10 @@ loop:
 	close(bad)
 	for b := range bad {
 		T.oracle("C05", "concurrent load: "+b, nil, M{"family": "sched", "stress": true})
+	}
+	close(identityBad)
+	for b := range identityBad {
+		T.oracle("C05", "concurrent load: a forwarded request carries another browser's identity", M{"what": b}, M{"family": "sched", "stress": true})
 	}
 	T.statN("sched.stress.requests", users*iters)
 	T.statN("sched.stress.housekeeping-cycles", hkRuns)
